@@ -17,7 +17,8 @@ AST_FILTER = ['runImpl']
 CLANG_ARGS = ()
 SHIM = 'cli.h'
 THROWING = set()
-DROPS = ['region shots_policy: `program->shots` becomes two parameters (annotation present, annotation value); the option text `echoOpt` is an interned literal id (0 = empty); blochWarning / blochInfo are counted, their text dropped',
+DROPS = ['region aggregate: the range-for over evaluator.trackedCounts() inside the shot loop (per-shot table added into `aggregate`); the per-shot table is an array of (variable key, array of (outcome, count)), `aggregate[k][o]` is observed at one arbitrary (key, outcome) pair (ghost)',
+         'region shots_policy: `program->shots` becomes two parameters (annotation present, annotation value); the option text `echoOpt` is an interned literal id (0 = empty); blochWarning / blochInfo are counted, their text dropped',
          'region prob_rows: `vals` (vector<pair<string,int>>) becomes an array of (outcome id, count); a `std::cout << ...` statement becomes one ghost output record holding its non-manipulator operands in order; stream manipulators and column widths are dropped',
          'everything else of runImpl (argument parsing, loading, analysis, the shot loop, sorting, file output)']
 ASSUMPTIONS = ['double division is an uninterpreted function (flag UF): the printed probability is specified as D_DIV((double)count, (double)total) with total the exact integer sum of the counts of that variable',
@@ -35,6 +36,10 @@ class Profile(Lower):
         (r'^std::unique_ptr<(bloch::compiler::)?Program(, std::default_delete<.*>)?>$', 'bl_prog'),
         (r'^std::pair<std::(basic_string<char.*>|string), int>$', 'OutcomeCount'),
         (r'^std::vector<std::pair<std::(basic_string<char.*>|string), int>(, .*)?>$', 'vec_OC'),
+        (r'^std::pair<std::(basic_string<char>|string), int>$', 'OutcomeCount'),
+        (r'^std::pair<std::(basic_string<char>|string), std::unordered_map<std::(basic_string<char>|string), int>>$', 'VarRow'),
+        (r'^std::unordered_map<std::(basic_string<char.*>|string), int(, .*)?>$', 'bl_inner'),
+        (r'^std::unordered_map<std::(basic_string<char.*>|string), std::unordered_map<std::(basic_string<char.*>|string), int.*>.*>$', 'bl_outer'),
     ]
 
     def __init__(self, *a, **k):
@@ -68,6 +73,10 @@ class Profile(Lower):
             return 'g_prog_shots'
         if self.ct(sb) in ('pair_bool_int', 'OutcomeCount') and nm in ('first', 'second'):
             return '(%s).%s' % (self.expr(sb), nm)
+        if self.ct(sb) == 'VarRow' and nm == 'first':
+            return 'g_tc[BL_IDX(%s, VMAXC)].key' % self.expr(sb)
+        if self.ct(sb) == 'VarRow' and nm == 'second':
+            return 'BL_INNER(%s)' % self.expr(sb)
         raise Unsupported('member %s of %s' % (nm, qt(sb)))
 
     def opcall(self, n):
@@ -79,6 +88,13 @@ class Profile(Lower):
             return '(%s %s %s)' % (self.expr(args[0]), op[len('operator'):], self.expr(args[1]))
         if op == 'operator<<':
             return self.out_chain(n)
+        if op == 'operator[]' and t0 == 'bl_inner':
+            inner = strip_parens(args[0])
+            if inner.get('kind') == 'CXXOperatorCallExpr' and callee_name(kids(inner)[0]) == 'operator[]' and self.ct(kids(inner)[1]) == 'bl_outer':
+                m = strip(kids(inner)[1])
+                if m.get('kind') == 'DeclRefExpr' and m['referencedDecl']['name'] == 'aggregate':
+                    return 'BL_AGG_CELL(%s, %s)' % (self.expr(kids(inner)[2]), self.expr(args[1]))
+            raise Unsupported('operator[] on a count map other than aggregate[key][outcome]')
         raise Unsupported('operator %s on %s' % (op, qt(args[0])))
 
     def out_chain(self, n):
@@ -123,7 +139,32 @@ class Profile(Lower):
         sig = '_'.join(ct.replace(' ', '') for ct, _ in vals)
         return 'cli_out_%s(%s)' % (sig or 'text', ', '.join(e for _, e in vals))
 
+    def compound_assign(self, n):
+        a, b = kids(n)
+        ea = self.expr(a)
+        if ea.startswith('BL_AGG_CELL('):
+            if n['opcode'] == '+=':
+                return 'cli_agg_add(%s, %s)' % (ea[len('BL_AGG_CELL('):-1], self.expr(b))
+            raise Unsupported('aggregate cell updated with ' + n['opcode'])
+        return super().compound_assign(n)
+
+    def unary(self, n):
+        if n.get('opcode') == '++':
+            ea = self.expr(kids(n)[0])
+            if ea.startswith('BL_AGG_CELL('):
+                return 'cli_agg_add(%s, 1)' % ea[len('BL_AGG_CELL('):-1]
+        return super().unary(n)
+
+    def binary(self, n):
+        if n.get('opcode') == '=':
+            ea = self.expr(kids(n)[0])
+            if ea.startswith('BL_AGG_CELL('):
+                return 'cli_agg_set(%s, %s)' % (ea[len('BL_AGG_CELL('):-1], self.expr(kids(n)[1]))
+        return super().binary(n)
+
     def membercall_other(self, n, name, obj, args):
+        if name == 'trackedCounts' and not args:
+            return 'BL_TRACKED_COUNTS'
         t = self.ct(obj)
         o = self.expr(obj)
         if t == 'bl_lit' and name == 'empty':
@@ -156,19 +197,26 @@ class Profile(Lower):
         if rangevar is None or loopvar is None:
             raise Unsupported('range-for shape')
         rng = strip(kids(rangevar)[0])
-        if self.ct(rng) != 'vec_OC':
-            raise Unsupported('range-for over ' + qt(rng))
         p = '  ' * ind
+        rs = self.expr(rng)
+        if rs == 'BL_TRACKED_COUNTS':
+            size, et, elem = 'g_ntc', 'VarRow', None
+        elif rs.startswith('BL_INNER('):
+            row = rs[len('BL_INNER('):-1]
+            size, et, elem = 'g_tc[BL_IDX(%s, VMAXC)].n' % row, 'OutcomeCount', 'g_tc[BL_IDX(%s, VMAXC)].cells[BL_IDX(IV, OMAXC)]' % row
+        elif self.ct(rng) == 'vec_OC':
+            size, et, elem = 'VEC_SIZE(%s)' % rs, 'OutcomeCount', 'VEC_AT(%s, IV)' % rs
+        else:
+            raise Unsupported('range-for over ' + qt(rng))
         k = self.loop_marker(p)
         iv = 'bl_i%d' % k
         self.locals.add(iv)
         self.locals.add(loopvar['name'])
-        rs = self.expr(rng)
         out = [p + '/*@BEFORELOOP:%s:%d@*/' % (self.fn, k), p + '{', p + '  size_t %s = 0;' % iv,
-               p + '  for (; %s < VEC_SIZE(%s); ++%s)' % (iv, rs, iv),
+               p + '  for (; %s < %s; ++%s)' % (iv, size, iv),
                p + '    /*@LOOP:%s:%d@*/' % (self.fn, k), p + '  {',
                p + '    /*@LOOPBODY:%s:%d@*/' % (self.fn, k),
-               p + '    OutcomeCount %s = VEC_AT(%s, %s);' % (loopvar['name'], rs, iv)]
+               p + '    %s %s = %s;' % (et, loopvar['name'], elem.replace('IV', iv) if elem else iv)]
         out += self.block(body, ind + 2)
         out += [p + '  }', p + '}', p + '/*@AFTERLOOP:%s:%d@*/' % (self.fn, k)]
         return out
@@ -256,8 +304,30 @@ def lower_regions(docs, prof):
         head, lines = prof.func(d, cname='prob_rows', is_method=False)
         return lines
 
+    def aggregate():
+        fn, blk = _try_block(docs)
+        loops = []
+        walk(blk, lambda z: loops.append(z) if z.get('kind') == 'CXXForRangeStmt' else None)
+        tgt = None
+        for lp in loops:
+            calls = []
+            rv = [v for s0 in kids(lp) if s0.get('kind') == 'DeclStmt' for v in kids(s0) if v.get('name', '').startswith('__range')]
+            if rv:
+                walk(rv[0], lambda z: calls.append(strip(kids(z)[0]).get('name')) if z.get('kind') == 'CXXMemberCallExpr' else None)
+            if 'trackedCounts' in calls:
+                tgt = lp
+                break
+        if tgt is None:
+            raise Unsupported('aggregate: range-for over evaluator.trackedCounts() not found')
+        d = dict(kind='FunctionDecl', name='aggregate', type=dict(qualType='void ()'), inner=[dict(kind='CompoundStmt', inner=[tgt])])
+        prof.locals |= {'aggregate', 'evaluator'}
+        head, lines = prof.func(d, cname='aggregate', is_method=False)
+        return lines
+
+    heads['aggregate'] = 'void cli_aggregate(void)'
     region('shots_policy', shots_policy)
     region('prob_rows', prob_rows)
+    region('aggregate', aggregate)
     return out
 
 
@@ -301,6 +371,17 @@ static inline void cli_out_bl_lit_int_double(bl_lit outcome, int count, double p
   if ((size_t)g_rows == gr) { g_obs_outcome = outcome; g_obs_count = count; g_obs_prob = prob; }
   if (g_rows < 1000) g_rows = g_rows + 1;
 }
+/* ---- region aggregate */
+typedef struct { bl_lit key; size_t n; OutcomeCount cells[OMAXC]; } TcRow;
+TcRow g_tc[VMAXC]; size_t g_ntc;           /* this shot's table: evaluator.trackedCounts() */
+bl_lit gK, gO; long g_agg_obs;              /* ghost: aggregate[gK][gO] (one arbitrary cell) */
+_Bool g_agg_overwritten;
+static inline void cli_agg_add(bl_lit k, bl_lit o, int c) { if (k == gK && o == gO) g_agg_obs = g_agg_obs + c; }
+static inline void cli_agg_set(bl_lit k, bl_lit o, int c) { if (k == gK && o == gO) { g_agg_obs = c; g_agg_overwritten = 1; } }
+#define CELL(i, j) (((i) < g_ntc && (j) < g_tc[i].n && g_tc[i].key == gK && g_tc[i].cells[j].first == gO) ? (long)g_tc[i].cells[j].second : 0L)
+#define ROWSUM(i, jl) (((0 < (jl)) ? CELL(i, 0) : 0L) + ((1 < (jl)) ? CELL(i, 1) : 0L) + ((2 < (jl)) ? CELL(i, 2) : 0L))
+#define TABSUM(il) (((0 < (il)) ? ROWSUM(0, OMAXC) : 0L) + ((1 < (il)) ? ROWSUM(1, OMAXC) : 0L) + ((2 < (il)) ? ROWSUM(2, OMAXC) : 0L))
+#define TC_WF (g_ntc <= VMAXC && g_tc[0].n <= OMAXC && g_tc[1].n <= OMAXC && g_tc[2].n <= OMAXC && g_tc[0].cells[0].second >= 0 && g_tc[0].cells[0].second <= 100000000 && g_tc[0].cells[1].second >= 0 && g_tc[0].cells[1].second <= 100000000 && g_tc[0].cells[2].second >= 0 && g_tc[0].cells[2].second <= 100000000 && g_tc[1].cells[0].second >= 0 && g_tc[1].cells[0].second <= 100000000 && g_tc[1].cells[1].second >= 0 && g_tc[1].cells[1].second <= 100000000 && g_tc[1].cells[2].second >= 0 && g_tc[1].cells[2].second <= 100000000 && g_tc[2].cells[0].second >= 0 && g_tc[2].cells[0].second <= 100000000 && g_tc[2].cells[1].second >= 0 && g_tc[2].cells[1].second <= 100000000 && g_tc[2].cells[2].second >= 0 && g_tc[2].cells[2].second <= 100000000)
 #define CNT(j) ((j) < vals.size ? (long)vals.data[j].second : 0L)
 #define PCNT(j, i) (((j) < (i) && (j) < vals.size) ? (long)vals.data[j].second : 0L)
 #define PSUM(i) (""" + ' + '.join('PCNT(%d, i)' % j for j in range(OMAXN)) + r""")
@@ -363,11 +444,32 @@ CONTRACTS = {
         'prologue': 'g_spec_prob = (gr < vals.size) ? D_DIV((double)vals.data[gr].second, (double)(TOTAL)) : 0.0;',
     },
 }
-GHOSTS += 'double g_spec_prob;\n'
+GHOSTS += 'double g_spec_prob; long g_agg0;\n'
+CONTRACTS['aggregate'] = {
+    'contract': [
+        R('bl_exc == 0 && TC_WF && g_agg_obs >= 0 && g_agg_obs <= 1000000000000L && !g_agg_overwritten'),
+        A('g_agg_obs, g_agg_overwritten, g_agg0'),
+        # C17: the aggregate table is the per-shot tables added together (observed at one arbitrary (variable, outcome) cell)
+        E('cli.aggregate.adds_this_shots_counts', 'g_agg_obs == __CPROVER_old(g_agg_obs) + TABSUM(VMAXC) && !g_agg_overwritten', ['C17']),
+    ],
+    'prologue': 'g_agg0 = g_agg_obs;',
+    'loops': {
+        0: {'assigns': 'bl_i0, g_agg_obs, g_agg_overwritten',
+            'invariants': [('aggregate.vars.bounds', 'bl_i0 <= g_ntc && !g_agg_overwritten'),
+                           ('aggregate.vars.partial_sum', 'g_agg_obs == g_agg0 + TABSUM(bl_i0)')],
+            'decreases': 'g_ntc - bl_i0'},
+        1: {'assigns': 'bl_i1, g_agg_obs, g_agg_overwritten',
+            'invariants': [('aggregate.cells.bounds', 'bl_i1 <= g_tc[vk].n && vk < g_ntc && !g_agg_overwritten'),
+                           ('aggregate.cells.partial_sum', 'g_agg_obs == g_agg0 + TABSUM(vk) + ROWSUM(vk, bl_i1)')],
+            'decreases': 'g_tc[vk].n - bl_i1'},
+    },
+}
 CONTRACTS['prob_rows']['contract'][2] = A('g_rows, g_obs_outcome, g_obs_count, g_obs_prob, g_spec_prob')
 HARNESSES = [
     dict(name='shots_policy', fn='shots_policy', replace=[], flags=[], props=['C17'], timeout=120,
          canaries=[('g_echoAll', 'echo shown'), ('!g_echoAll && shots > 1', 'echo suppressed for many shots')]),
+    dict(name='aggregate', fn='aggregate', replace=[], flags=[], props=['C17', 'C12'], timeout=300, unwind=6,
+         canaries=[('g_agg_obs > 5', 'counts were added')]),
     dict(name='prob_rows', fn='prob_rows', replace=[], flags=['UF'], props=['C17', 'C12'], timeout=300, unwind=10,
          canaries=[('g_rows >= 2', 'several outcomes')]),
 ]
@@ -395,8 +497,8 @@ def replay_counterexample(pu, h, label, failure, work, tier, seed):
     rc, out, dt = _oracle()
     fails = [l for l in out.split('\n') if l.startswith('FAIL ')]
     same = [l for l in fails if label and ('label=' + label + ' ') in l]
-    pref = 'cli.table.' if h['fn'] == 'prob_rows' else 'cli.'
-    pick = same or [l for l in fails if ('label=' + pref) in l and (h['fn'] == 'prob_rows' or 'cli.table.' not in l)]
+    pref = {'prob_rows': 'cli.table.', 'aggregate': 'cli.aggregate.'}.get(h['fn'], 'cli.')
+    pick = same or [l for l in fails if ('label=' + pref) in l and (h['fn'] != 'shots_policy' or ('cli.table.' not in l and 'cli.aggregate.' not in l))]
     if pick:
         m = re.search(r'label=(\S+)', pick[0])
         return dict(failing_input_found=True, failing_input=pick[0], native_failures=fails[:5], oracle_label=m.group(1), signature=re.sub(r' detail=.*', '', pick[0])[:160],
